@@ -279,9 +279,9 @@ def cycle_tie(ck, n_circuits, thorough=False):
 
 def run(ck):
     ck.prove([extract_ops.generate], TARGETS, theorems())
-    n = 60 if ck.tier == 'quick' else 800
+    n = 60 if ck.tier == 'quick' else 400
     corr_and_oracle(ck, n, ck.tier == 'thorough')
-    cycle_tie(ck, 40 if ck.tier == 'quick' else 500, ck.tier == 'thorough')
+    cycle_tie(ck, 40 if ck.tier == 'quick' else 300, ck.tier == 'thorough')
     if ck.broken and not ck.violations:
         corr_and_oracle(ck, n * 5, ck.tier == 'thorough')
     ck.assumptions += ['state elements and ports have a connected data pin (an unconnected one raises in SimOps, finding D9)',
